@@ -37,6 +37,15 @@ add("C15", "exhaustive enumeration of small import graphs + rapid graph/schedule
     "Schedules are steered only at module granularity (verif hook) and by GOMAXPROCS; a hang is a 25 s timeout re-confirmed through the CLI. The processed-once observation relies on the compiler's own -d trace.",
     "DESIGN.md §4 C15")
 
+add("C13", "generated-input robustness testing (rapid: bytes, token soup, mutated corpus programs, broken multi-file projects) with a faithful-failure oracle; native go fuzz in thorough",
+    "Arbitrary bytes, token soup, every .fer file of the repository damaged by syntactic and class-preserving mutations and re-laid-out with tabs/line breaks, and small projects with missing/self/cyclic/malformed imports are compiled for -t, wasm and native. Oracle: no internal crash or hang, exit 0 exactly when no error diagnostic was printed, a failure carries >=1 error located inside an input file, no artifact after failure, artifact after success. Exploration.",
+    "Compilations run through a persistent process calling compiler.Compile (process creation is the bottleneck here); every violation is re-confirmed with the real CLI. One recorded finding (closures on wasm fail without a located diagnostic) is suppressed by its key.",
+    "DESIGN.md §4 C13")
+add("C18", "white-box invariant checking of the compiler's DataLayout over generated type expressions (rapid), both pointer sizes; black-box store/read-back programs via the C01/C02 machinery",
+    "Generated type expressions (mixed-width structs, nesting, fixed arrays, optionals, results, references) are laid out by mir.DataLayout for pointer sizes 8 and 4 and must satisfy: aligned, ordered, pairwise disjoint fields inside the object; size multiple of alignment; optional flag byte and result discriminant inside the object and outside the payloads. Exploration of the layout function; the run-time half is covered by generated programs.",
+    "The consumer-side offsets (optional flag at SizeOf(inner), result tag at alignTo(max(ok,err))) are taken from the emitters/runtime as documented; a change on the consumer side only is visible to the black-box part.",
+    "DESIGN.md §4 C18")
+
 def main():
     props = [json.loads(l) for l in open(os.path.join(V, "properties.jsonl"))]
     checks, na = [], []
